@@ -165,6 +165,7 @@ fn _param_list_openqasm(p: &mut Parser<'_>, flavor: DefFlavor) {
         }
 
         // Dispatch to the appropriate item parser.
+        let pos_before_item = p.position();
         let found_param = match flavor {
             ExpressionList | CaseValues => {
                 m.abandon(p);
@@ -192,6 +193,12 @@ fn _param_list_openqasm(p: &mut Parser<'_>, flavor: DefFlavor) {
             }
         };
         if !found_param {
+            break;
+        }
+        // An item parser may report success without consuming anything (it has
+        // then already recorded an error, e.g. for `def f(3) {}`). Stop here,
+        // otherwise the "Expected `,`" branch below would loop forever.
+        if p.position() == pos_before_item {
             break;
         }
         num_params += 1;
